@@ -110,7 +110,8 @@ namespace sqf::parser::config
             {
                 if ((char)std::tolower(*it) != against[i]) { return 0; }
             }
-            if (it < m_end && ((char)std::tolower(*it) >= 'a' && (char)std::tolower(*it) <= 'z'))
+            // a keyword ends where an identifier ends: `class_x`, `delete1` are identifiers
+            if (it < m_end && (((char)std::tolower(*it) >= 'a' && (char)std::tolower(*it) <= 'z') || (*it >= '0' && *it <= '9') || *it == '_'))
             {
                 return 0;
             }
